@@ -125,22 +125,40 @@ func init() {
 			}
 		}
 		r.Floor("state tests in TableHeap.UpdateTuple", nState, 1)
-		// success = first result may be true; the value returned is the same SSA value the write-set branch tests
-		var rets []*ssa.Return
+		// success = first result may be true on the path taken (boolean phis are bound per path)
+		isUpdatedByPage := func(v ssa.Value) bool {
+			e, ok := resolveCell(v).(*ssa.Extract)
+			if !ok || e.Index != 0 {
+				return false
+			}
+			c, ok := e.Tuple.(*ssa.Call)
+			return ok && CalleeObj(c) == a.TPUpdate
+		}
+		pageSaysUpdated := CutWhen(isUpdatedByPage, false)
+		nRet := 0
 		for _, b := range up.Blocks {
 			for _, in := range b.Instrs {
-				if ret, ok := in.(*ssa.Return); ok && mayReturnBool(ret, 0, true) {
-					rets = append(rets, ret)
+				if _, ok := in.(*ssa.Return); ok {
+					nRet++
 				}
 			}
 		}
-		r.Floor("success returns of TableHeap.UpdateTuple", len(rets), 1)
-		for _, ret := range rets {
-			rv := retOperand(ret, 0)
-			cutFalse := CutWhen(func(v ssa.Value) bool { return resolveCell(v) == rv || v == rv }, false)
-			wit = (&PathQ{Fn: up, Cut: []EdgeCut{notAborted, cutFalse}, Avoid: isAdd, Target: func(in ssa.Instruction) bool { return in == ssa.Instruction(ret) }}).FromEntry()
-			r.Check(wit == nil, "TableHeap.UpdateTuple:write-set", "a successful update by a live transaction is always recorded", "path: "+w.DescribeWitness(up, wit))
+		r.Floor("returns of TableHeap.UpdateTuple", nRet, 1)
+		success := func(in ssa.Instruction) bool {
+			ret, ok := in.(*ssa.Return)
+			if !ok || len(ret.Results) == 0 {
+				return false
+			}
+			return canBeBool(Bound(retOperand(ret, 0)), true, map[ssa.Value]bool{})
 		}
+		// (a) in-place success: the page reported success
+		wit = (&PathQ{Fn: up, Cut: []EdgeCut{notAborted, pageSaysUpdated}, Avoid: isAdd, Target: success}).FromEntry()
+		r.Check(wit == nil, "TableHeap.UpdateTuple:write-set", "a successful update by a live transaction is always recorded", "path: "+w.DescribeWitness(up, wit))
+		// (b) relocation success: after the re-insert of the relocated tuple, a `true` return passes AddIntoWriteSet
+		reins := sitesCalling(up, a.THInsert)
+		r.Floor("re-insert sites in TableHeap.UpdateTuple", len(reins), 1)
+		wit = (&PathQ{Fn: up, Cut: []EdgeCut{notAborted}, Avoid: isAdd, Target: success}).FromAfter(reins)
+		r.Check(wit == nil, "TableHeap.UpdateTuple:write-set-after-relocation", "a relocating update by a live transaction is always recorded", "path: "+w.DescribeWitness(up, wit))
 		// write records built by UpdateTuple carry before image, after image and both RIDs
 		n := 0
 		EachCall(up, func(c ssa.CallInstruction) {
